@@ -6,8 +6,10 @@ import (
 	"encoding/json"
 	"errors"
 	"fmt"
+	"io"
 	"math"
 	"math/big"
+	"mime/multipart"
 	"net/http"
 	"net/url"
 	"os"
@@ -208,10 +210,54 @@ func configRejected(who string, err error) obs {
 	return obs{Panic: "", Err: err, Status: -1}
 }
 
+// bodyOpts: how body.Modifier is built and what it is handed.
+type bodyOpts struct {
+	Slack    int     // spare capacity behind the content slice
+	ViaJSON  bool    // built by parse.FromJSON
+	Upstream string  // "" transport-like upstream 200; "nop": its body stays readable after Close; "206cr"/"416cr": upstream answered the Range itself
+	Boundary *string // SetBoundary(*Boundary) is called (constructor-built only)
+}
+
+// nopBody is a body whose Close is a no-op (bytes.Reader behind ioutil.NopCloser:
+// what other modifiers, proxyutil.NewResponse and tests hand over).
+type nopBody struct{ *bytes.Reader }
+
+func (nopBody) Close() error { return nil }
+
+// boundaryKind: "" = usable as it is; "quoted" = accepted by multipart.Writer
+// but not an RFC 2045 token (must be quoted in Content-Type); "invalid" =
+// multipart.Writer.SetBoundary rejects it.
+func boundaryKind(b string) string {
+	if multipart.NewWriter(io.Discard).SetBoundary(b) != nil {
+		return "invalid"
+	}
+	for i := 0; i < len(b); i++ {
+		c := b[i]
+		if !(c >= '0' && c <= '9' || c >= 'a' && c <= 'z' || c >= 'A' && c <= 'Z' || strings.IndexByte("!#$%&'*+-.^_`|~", c) >= 0) {
+			return "quoted"
+		}
+	}
+	return ""
+}
+
+func bodyWho(o bodyOpts) string {
+	who := whoLabel("body", o.ViaJSON)
+	if o.Boundary != nil && !o.ViaJSON {
+		switch boundaryKind(*o.Boundary) {
+		case "invalid":
+			who += "-set-boundary-rejected-by-writer"
+		case "quoted":
+			who += "-set-boundary-needing-quotes"
+		}
+	}
+	return who
+}
+
 // runBodyModifier answers a request with body.Modifier the way the proxy
 // does: the upstream response is handed to ModifyResponse.
-func runBodyModifier(content []byte, h string, slack int, viaJSON bool) obs {
-	if viaJSON {
+func runBodyModifier(content []byte, h string, opt bodyOpts) obs {
+	slack := opt.Slack
+	if opt.ViaJSON {
 		slack = 0
 	}
 	if slack > 0 {
@@ -234,9 +280,27 @@ func runBodyModifier(content []byte, h string, slack int, viaJSON bool) obs {
 		ContentLength: int64(3 * len(upstreamMarker)),
 		Request:       req,
 	}
-	mod, err := newBodyModifier(content, viaJSON)
+	strict := false
+	if p := parseRange(h); h != "" && p.valid() && !p.ambiguous {
+		strict = true
+	}
+	switch {
+	case opt.Upstream == "nop":
+		res.Body = nopBody{bytes.NewReader(bytes.Repeat(upstreamMarker, 3))}
+	case opt.Upstream == "206cr" && strict:
+		// the origin served the (forwarded) Range itself
+		res.Status, res.StatusCode = "206 Partial Content", 206
+		res.Header.Set("Content-Range", "bytes 0-0/12345")
+	case opt.Upstream == "416cr" && strict:
+		res.Status, res.StatusCode = "416 Requested Range Not Satisfiable", 416
+		res.Header.Set("Content-Range", "bytes */12345")
+	}
+	mod, err := newBodyModifier(content, opt.ViaJSON)
 	if err != nil {
 		return configRejected("body", err)
+	}
+	if bm, ok := mod.(*body.Modifier); ok && opt.Boundary != nil && !opt.ViaJSON {
+		bm.SetBoundary(*opt.Boundary)
 	}
 	return observe(res, mod.ModifyResponse, readLimit(len(content), h))
 }
@@ -357,6 +421,17 @@ type RangeCase struct {
 	// ViaJSON: the modifier is built by parse.FromJSON from its documented
 	// JSON configuration instead of its Go constructor.
 	ViaJSON bool `json:"via_json,omitempty"`
+	// Upstream (body only): "" = a 200 whose body fails after Close (as the
+	// transport's does); "nop" = its body stays readable after Close; "206cr" /
+	// "416cr" = the origin answered the forwarded Range itself (206 / 416 with a
+	// Content-Range of its own; used when the header is strictly valid).
+	Upstream string `json:"upstream,omitempty"`
+	// Boundary (body, constructor-built): SetBoundary is called with it.
+	Boundary *string `json:"boundary,omitempty"`
+}
+
+func (c RangeCase) opts() bodyOpts {
+	return bodyOpts{Slack: c.Slack, ViaJSON: c.ViaJSON, Upstream: c.Upstream, Boundary: c.Boundary}
 }
 
 func runRange(c RangeCase) kit.Verdict {
@@ -366,7 +441,7 @@ func runRange(c RangeCase) kit.Verdict {
 	content := kit.Bytes(c.Seed, c.Len)
 	switch c.Who {
 	case "body":
-		return judge(whoLabel("body", c.ViaJSON), content, c.Range, runBodyModifier(content, c.Range, c.Slack, c.ViaJSON))
+		return judge(bodyWho(c.opts()), content, c.Range, runBodyModifier(content, c.Range, c.opts()))
 	case "static":
 		treeMu.Lock()
 		ft := tree
@@ -375,7 +450,7 @@ func runRange(c RangeCase) kit.Verdict {
 			return kit.Failf("C20/harness/no-tree", "static case without a file tree")
 		}
 		if staticAllocatesFromHeader(ft) && allocBand(c.Range, c.Len) {
-			return judge(whoLabel("body", c.ViaJSON), content, c.Range, runBodyModifier(content, c.Range, 0, c.ViaJSON))
+			return judge(whoLabel("body", c.ViaJSON), content, c.Range, runBodyModifier(content, c.Range, bodyOpts{ViaJSON: c.ViaJSON}))
 		}
 		o, err := runStaticModifier(ft, content, c.Range, c.ViaJSON)
 		if err != nil {
@@ -395,6 +470,12 @@ func classesRange(c RangeCase) []string {
 	}
 	if c.ViaJSON {
 		cl = append(cl, "built-from-json-config")
+	}
+	if c.Who == "body" && c.Upstream != "" {
+		cl = append(cl, "upstream-"+c.Upstream)
+	}
+	if c.Who == "body" && c.Boundary != nil && !c.ViaJSON {
+		cl = append(cl, "set-boundary-"+map[string]string{"": "plain", "quoted": "needing-quotes", "invalid": "rejected-by-writer"}[boundaryKind(*c.Boundary)])
 	}
 	if c.Range == "" {
 		return append(cl, "shape-no-range")
@@ -554,8 +635,14 @@ func genRangeHeader(t *rapid.T, n int) string {
 	}
 	unit := "bytes"
 	switch u := rapid.IntRange(0, 19).Draw(t, "unit"); {
-	case u == 11:
-		unit = rapid.SampledFrom([]string{"Bytes", "BYTES", "bYtEs"}).Draw(t, "unit_case")
+	case u == 11 || u == 14 || u == 15:
+		b := []byte("bytes") // any letter case
+		for i := range b {
+			if rapid.Bool().Draw(t, "upper") {
+				b[i] -= 'a' - 'A'
+			}
+		}
+		unit = string(b)
 	case u == 12 || u == 13:
 		unit = rapid.SampledFrom([]string{"items", "seconds", "tes", "b", "", "bytes ", "byte", "bytess", "none", "yes", "bits", "bytes=bytes", "bytes="}).Draw(t, "unit_other")
 	}
@@ -641,8 +728,23 @@ var propRange = &kit.Prop[RangeCase]{
 		} else if rapid.IntRange(0, 2).Draw(t, "via_json") == 2 {
 			c.ViaJSON = true
 		}
+		if c.Who == "body" {
+			c.Upstream = rapid.SampledFrom([]string{"", "", "", "", "nop", "206cr", "416cr", "nop", "", ""}).Draw(t, "upstream")
+			if !c.ViaJSON && rapid.IntRange(0, 7).Draw(t, "set_boundary") == 4 {
+				b := rapid.SampledFrom(boundaryChoices).Draw(t, "boundary")
+				c.Boundary = &b
+			}
+		}
 		return c
 	},
+}
+
+// boundaryChoices: usable tokens, boundaries multipart.Writer accepts but that
+// need quoting in Content-Type, and boundaries it rejects.
+var boundaryChoices = []string{
+	"3d6b6a416f9b5", strings.Repeat("x", 70), "simple-boundary_1.0",
+	"a b", "a:b", "x(y)z", "q=1?", "'quoted'", "with,comma/slash",
+	"", strings.Repeat("y", 71), "bad@boundary", "trailing ", "caf\u00e9", "semi;colon", "quo\"te",
 }
 
 func TestRange(t *testing.T) {
@@ -657,7 +759,7 @@ func TestRange(t *testing.T) {
 
 var propRangeMatrix = &kit.Prop[RangeCase]{
 	ID: "C20", Name: "range-matrix",
-	Rule: "ALL headers 'bytes=' + one spec, and + two specs from a reduced set, over positions {0,1,len-2,len-1,len,len+1,2^31,2^50,2^63-1,2^63,2^64} and forms a-b / a- / -n, plus a fixed list of unit and syntax variants, plus (length 10) every placement of SP / HTAB around the commas of all ordered pairs and triples of the three spec kinds, for every content length in {0,1,2,3,10}, against both modifiers (for lengths 2 and 10 also built from their JSON configuration); non-trivial as in 'range'",
+	Rule: "ALL headers 'bytes=' + one spec, and + two specs from a reduced set, over positions {0,1,len-2,len-1,len,len+1,2^31,2^50,2^63-1,2^63,2^64} and forms a-b / a- / -n, plus a fixed list of unit and syntax variants, plus (length 10) the unit in all 32 letter cases, nine representative headers x {transport-like upstream, upstream body readable after Close, upstream 206 / 416 with its own Content-Range} x 16 SetBoundary arguments (tokens, boundaries needing quotes, boundaries multipart.Writer rejects), and every placement of SP / HTAB around the commas of all ordered pairs and triples of the three spec kinds, for every content length in {0,1,2,3,10}, against both modifiers (for lengths 2 and 10 also built from their JSON configuration); non-trivial as in 'range'",
 	Run:  runRange, Classes: classesRange,
 	NonTrivial: func(c RangeCase) bool { return c.Range != "" && nonTrivialRange(c.Range, int64(c.Len)) },
 }
@@ -733,6 +835,35 @@ func TestRangeMatrix(t *testing.T) {
 											}
 										}
 									}
+								}
+							}
+						}
+					}
+				}
+			}
+			if n == 10 {
+				// the unit in every letter case
+				for m := 1; m < 32; m++ {
+					u := []byte("bytes")
+					for i := range u {
+						if m&(1<<i) != 0 {
+							u[i] -= 'a' - 'A'
+						}
+					}
+					for _, set := range []string{"2-5", "0-1,4-", "-3", "2-5, 7-"} {
+						headers = append(headers, string(u)+"="+set)
+					}
+				}
+				// what the modifier is handed and how its boundary was set (body.Modifier)
+				for _, h := range []string{"", "bytes=2-5", "bytes=0-1,4-", "bytes=0-1,-2,5-7", "bytes=20-", "bytes=5-2", "bytes=abc", "bytes=0-99999999999999999999", "items=0-1"} {
+					for _, up := range []string{"", "nop", "206cr", "416cr"} {
+						if up != "" && !yield(RangeCase{Who: "body", Len: n, Seed: 10, Range: h, Upstream: up}) {
+							return
+						}
+						for i := range boundaryChoices {
+							if up == "" || up == "nop" && i%3 == 0 {
+								if !yield(RangeCase{Who: "body", Len: n, Seed: 10, Range: h, Upstream: up, Boundary: &boundaryChoices[i]}) {
+									return
 								}
 							}
 						}
@@ -1181,7 +1312,7 @@ func FuzzRange(f *testing.F) {
 		}
 		content := blob[:n:n]
 		var v kit.Verdict
-		v = append(v, judge(whoLabel("body", viaJSON), content, h, runBodyModifier(content, h, slack, viaJSON))...)
+		v = append(v, judge(whoLabel("body", viaJSON), content, h, runBodyModifier(content, h, bodyOpts{Slack: slack, ViaJSON: viaJSON}))...)
 		classes := []string{}
 		if viaJSON {
 			classes = append(classes, "built-from-json-config")
